@@ -10,7 +10,8 @@ namespace Pyx.Extract
     * rename: the new name is not the name of another attribute of the class
     * retype (of a base / derived attribute): the old and the new data type have a base type name
     * add attribute: Attr_ID and name are new in the class and nothing refers to the new Attr_ID
-    * add type: DT_ID and name are new and nothing refers to the new DT_ID -/
+    * add type: DT_ID and name are new and nothing refers to the new DT_ID
+    * permute enumerators: the positions are a permutation of 0 … n-1 -/
 def XEditOk (d : ClassDiagram) : XEdit → Prop
   | .renameAttr c a new => ∀ kc, findClass d c = some kc → ∀ x ∈ kc.attrs, x.name = new → x.id = a
   | .retypeAttr c a dt => ∀ kc xa, findClass d c = some kc → kc.findAttr a = some xa →
@@ -19,7 +20,47 @@ def XEditOk (d : ClassDiagram) : XEdit → Prop
   | .addAttr c x => FreshAttr d c x ∧
       ∀ kc, findClass d c = some kc → (∀ y ∈ kc.attrs, y.id ≠ x.id) ∧ (∀ y ∈ kc.attrs, y.name ≠ x.name)
   | .addType t => FreshType d t ∧ ∀ x ∈ d.dts, x.name ≠ t.name
+  | .permEnums t perm => ∀ x es, findDt d.dts t = some x → x.kind = .enum es → perm.Perm (List.range es.length)
   | _ => True
+
+theorem chain_enG {dts : List DataType} {t : Nat} {F : List String → List String} (chain : DtChainOk dts) :
+    DtChainOk (dts.map (enG t F)) := by
+  obtain ⟨depth, hdec, hb⟩ := chain.ex
+  refine ⟨depth, ?_, by intro i; rw [List.length_map]; exact hb i⟩
+  intro x' hx' b hk
+  obtain ⟨x, hx, rfl⟩ := List.mem_map.mp hx'
+  rw [enG_id]
+  obtain ⟨h1, h2, h3, h4⟩ := enG_kind_cases (t := t) (F := F) x
+  cases hxk : x.kind with
+  | core n => rw [h1 n hxk] at hk; cases hk
+  | user b' => rw [h2 b' hxk] at hk; cases hk; exact hdec x hx _ hxk
+  | other => rw [h3 hxk] at hk; cases hk
+  | enum es => obtain ⟨es', he⟩ := h4 es hxk; rw [he] at hk; cases hk
+
+theorem chain_addType {d : ClassDiagram} {t : DataType} (chain : DtChainOk d.dts) (fr : FreshType d t) :
+    DtChainOk (d.dts ++ [t]) := by
+  obtain ⟨depth, hdec, hb⟩ := chain.ex
+  refine ⟨fun i => if i = t.id then (match t.kind with | .user b => depth b + 1 | _ => 0) else depth i, ?_, ?_⟩
+  · intro x hx b hk
+    rcases List.mem_append.mp hx with hx | hx
+    · have h1 : x.id ≠ t.id := fr.noDt x hx
+      have h2 : b ≠ t.id := by intro e; exact fr.noBase x hx (by rw [hk, e])
+      simp only [h1, h2, if_false]
+      exact hdec x hx b hk
+    · simp only [List.mem_singleton] at hx
+      subst hx
+      have h2 : b ≠ x.id := by intro e; exact fr.noSelf (by rw [hk, e])
+      simp only [h2, if_false, if_true, hk]
+      omega
+  · intro i
+    rw [List.length_append, List.length_singleton]
+    by_cases hi : i = t.id
+    · simp only [hi, if_true]
+      cases t.kind with
+      | user b => have := hb b; simp only; omega
+      | _ => simp
+    · simp only [hi, if_false]
+      have := hb i; omega
 
 theorem xedit_commutes_all {d : ClassDiagram} (xwf : XWF d) (e : XEdit) (ok : XEditOk d e) (comp : Nat) :
     xsdSpec (applyXEdit e d) comp = specEdit (xresolve d comp e) (xsdSpec d comp) := by
@@ -29,16 +70,16 @@ theorem xedit_commutes_all {d : ClassDiagram} (xwf : XWF d) (e : XEdit) (ok : XE
   | addAttr c x => exact xaddAttr_commutes xwf.wf c x comp ok.1
   | addEnum t name => exact xaddEnum_commutes xwf t name comp
   | permEnums t perm => exact xpermEnums_commutes xwf t perm comp
-  | addType t => exact xaddType_commutes ok.1 comp
+  | addType t => exact xaddType_commutes xwf.chain ok.1 comp
   | moveClass c p => exact xmoveClass_commutes xwf.wf c p comp
 
 theorem applyXEdit_xwf {d : ClassDiagram} (xwf : XWF d) (e : XEdit) (ok : XEditOk d e) : XWF (applyXEdit e d) := by
   have wf := xwf.wf
   cases e with
   | renameAttr c a new =>
-    exact ⟨applyEdit_wf wf (.renameAttr c a new) ok, xwf.dtIds, xwf.dtNames⟩
+    exact ⟨applyEdit_wf wf (.renameAttr c a new) ok, xwf.dtIds, xwf.dtNames, xwf.tree, xwf.chain⟩
   | retypeAttr c a dt =>
-    refine ⟨?_, xwf.dtIds, xwf.dtNames⟩
+    refine ⟨?_, xwf.dtIds, xwf.dtNames, xwf.tree, xwf.chain⟩
     show WF { d with classes := d.classes.map (rtG c a dt) }
     apply wf_mapClasses wf rtG_keepsId rtG_kl
     · intro k hk
@@ -56,7 +97,7 @@ theorem applyXEdit_xwf {d : ClassDiagram} (xwf : XWF d) (e : XEdit) (ok : XEditO
         rw [this]; exact wf.attrNames k hk
       · exact wf.attrNames k hk
   | addAttr c x =>
-    refine ⟨?_, xwf.dtIds, xwf.dtNames⟩
+    refine ⟨?_, xwf.dtIds, xwf.dtNames, xwf.tree, xwf.chain⟩
     show WF { d with classes := d.classes.map (adG c x) }
     apply wf_mapClasses wf adG_keepsId adG_kl
     · intro k hk
@@ -90,7 +131,7 @@ theorem applyXEdit_xwf {d : ClassDiagram} (xwf : XWF d) (e : XEdit) (ok : XEditO
         exact (ok.2 k hfc).2 y hy
       · exact wf.attrNames k hk
   | addEnum t name =>
-    refine ⟨⟨wf.clsIds, wf.kls, wf.attrIds, wf.attrNames, wf.relIds, wf.relNumbs⟩, ?_, ?_⟩
+    refine ⟨⟨wf.clsIds, wf.kls, wf.attrIds, wf.attrNames, wf.relIds, wf.relNumbs⟩, ?_, ?_, xwf.tree, chain_enG xwf.chain⟩
     · show ((d.dts.map (enG t (fun es => es ++ [name]))).map (·.id)).Nodup
       simp only [List.map_map]
       have : ((fun (x : DataType) => x.id) ∘ enG t (fun es => es ++ [name])) = fun x => x.id := by
@@ -102,7 +143,7 @@ theorem applyXEdit_xwf {d : ClassDiagram} (xwf : XWF d) (e : XEdit) (ok : XEditO
         funext x; exact enG_name x
       rw [this]; exact xwf.dtNames
   | permEnums t perm =>
-    refine ⟨⟨wf.clsIds, wf.kls, wf.attrIds, wf.attrNames, wf.relIds, wf.relNumbs⟩, ?_, ?_⟩
+    refine ⟨⟨wf.clsIds, wf.kls, wf.attrIds, wf.attrNames, wf.relIds, wf.relNumbs⟩, ?_, ?_, xwf.tree, chain_enG xwf.chain⟩
     · show ((d.dts.map (enG t (permute perm))).map (·.id)).Nodup
       simp only [List.map_map]
       have : ((fun (x : DataType) => x.id) ∘ enG t (permute perm)) = fun x => x.id := by
@@ -114,7 +155,7 @@ theorem applyXEdit_xwf {d : ClassDiagram} (xwf : XWF d) (e : XEdit) (ok : XEditO
         funext x; exact enG_name x
       rw [this]; exact xwf.dtNames
   | addType t =>
-    refine ⟨⟨wf.clsIds, wf.kls, wf.attrIds, wf.attrNames, wf.relIds, wf.relNumbs⟩, ?_, ?_⟩
+    refine ⟨⟨wf.clsIds, wf.kls, wf.attrIds, wf.attrNames, wf.relIds, wf.relNumbs⟩, ?_, ?_, xwf.tree, chain_addType xwf.chain ok.1⟩
     · show ((d.dts ++ [t]).map (·.id)).Nodup
       simp only [List.map_append, List.map_cons, List.map_nil]
       apply List.nodup_append.mpr
@@ -134,7 +175,7 @@ theorem applyXEdit_xwf {d : ClassDiagram} (xwf : XWF d) (e : XEdit) (ok : XEditO
       obtain ⟨y, hy, rfl⟩ := List.mem_map.mp hi
       exact ok.2 y hy
   | moveClass c p =>
-    exact ⟨applyEdit_wf wf (.moveClass c p) trivial, xwf.dtIds, xwf.dtNames⟩
+    exact ⟨applyEdit_wf wf (.moveClass c p) trivial, xwf.dtIds, xwf.dtNames, xwf.tree, xwf.chain⟩
 
 def XScriptOk : ClassDiagram → List XEdit → Prop
   | _, [] => True
